@@ -126,7 +126,7 @@ def seed_digests(cases, seed):
 NET_PARTS = ["wire", "port", "bucket", "mq", "drr", "wfq", "route", "gensink"]
 # whole plugins used as further scenario sources (their gen_case/run_impl; no truncation hook: the polluting executions of
 # these run to their end): routing elements incl. hubs with string element ids and fat trees, closed TCP loops, timers
-NET_PLUGINS = {"c18": None, "c16": ("loop",), "c19": None}
+NET_PLUGINS = {"c18": None, "c16": ("loop",), "c19": None, "c06": None, "c07": None}
 _NET = {}
 
 
@@ -1074,7 +1074,7 @@ class C03(Prop):
         """network scenarios (the element parts' case streams): in-process execution after truncated executions of the same
         part == execution in a fresh interpreter, under several PYTHONHASHSEED values"""
         parts = net_parts()
-        n_total = 72 if tier == "quick" else 760
+        n_total = 98 if tier == "quick" else 980
         seeds = [1, 4242] if tier == "quick" else [0, 1, 7, 4242]
         per = max(1, n_total // max(1, len(parts)))
         items = []                                            # (part, case, polluters, ks)
